@@ -758,6 +758,37 @@ def rule_r15(prog, res):
                     'arithmetic rounds to the active context precision (28 '
                     'digits), so values with more significant digits are '
                     'written as a different number' % unparse(b)[:40])
+    # ... and the reader builds the number from the literal exactly
+    CTX = ('create_decimal', 'create_decimal_from_float', 'getcontext',
+           'localcontext', 'setcontext', 'Context', 'BasicContext',
+           'ExtendedContext', 'normalize', 'quantize')
+    nr = 0
+    for nm in ('decimal_from_unicode', 'decimal_from_bytes'):
+        fr = inb.methods.get(nm)
+        if fr is None:
+            continue
+        nr += 1
+        hits = [c for c in calls_in(fr.node) if call_name(c) in CTX]
+        hits += [b for b in walk_no_defs(fr.node) if isinstance(b, ast.BinOp)
+                 and isinstance(b.op, (ast.Add, ast.Sub, ast.Mult, ast.Div))
+                 and any(isinstance(x, ast.Call) and call_name(x) in (
+                     'D', 'Decimal') for x in ast.walk(b))]
+        res.ob('R15', fr.where, '%s: %s' % (nm, (
+            'context-dependent construction: %s' % [unparse(h)[:40]
+                                                    for h in hits])
+            if hits else 'exact construction from the literal'),
+            'VIOLATED' if hits else 'ok')
+        for h in hits[:1]:
+            res.finding('R15', 'InProtocolBase.%s|context-construction|%s' %
+                        (nm, call_name(h) if isinstance(h, ast.Call)
+                         else 'arithmetic'),
+                        '%s:%d' % (fr.module.relpath, h.lineno),
+                        '%s builds the value with %s, which rounds to the '
+                        'precision of the active decimal context (28 '
+                        'significant digits by default): a longer literal '
+                        'spyne wrote exactly reads back as a different '
+                        'number' % (nm, unparse(h)[:50]))
+    res.floor('R15', 'decimal readers', nr, 1)
     ACC = ('_get_time_format', '_get_date_format', '_get_datetime_format',
            'time_format', 'date_format', 'dt_format', 'out_format')
     n = 0
@@ -840,6 +871,60 @@ def rule_r16(prog, res):
     res.floor('R16', 'text carriers of typed members', n, 2)
 
 
+# ------------------------------------------------------------------ R17
+def rule_r17(prog, res):
+    res.rule('R17', 'the duration writer reads the fields of the value it '
+             'formats: nothing computed from the value before its negation '
+             'is used afterwards')
+    out = prog.cls('spyne.protocol._outbase:OutProtocolBase')
+    f = out.methods.get('duration_to_unicode')
+    if f is None:
+        raise AnalysisError('OutProtocolBase.duration_to_unicode',
+                            'not found')
+    v = [p_ for p_ in f.params() if p_ not in ('self', 'cls')][0]
+    rebinds = [a for a in walk_no_defs(f.node) if isinstance(a, ast.Assign)
+               and any(isinstance(t, ast.Name) and t.id == v
+                       for t in a.targets)]
+    res.floor('R17', 'rebindings of the duration value', len(rebinds), 1)
+    last = max(a.lineno for a in rebinds)
+    stale = []
+    for a in walk_no_defs(f.node):
+        if isinstance(a, ast.Assign) and a.lineno < last and a not in rebinds \
+                and any(isinstance(x, ast.Name) and x.id == v
+                        for x in ast.walk(a.value)):
+            for t in a.targets:
+                if not isinstance(t, ast.Name):
+                    continue
+                used_after = [x for x in walk_no_defs(f.node) if isinstance(
+                    x, ast.Name) and x.id == t.id and isinstance(
+                        x.ctx, ast.Load) and x.lineno > last]
+                redefined = [b for b in walk_no_defs(f.node) if isinstance(
+                    b, ast.Assign) and b.lineno > last and any(
+                        isinstance(tt, ast.Name) and tt.id == t.id
+                        for tt in b.targets)]
+                if used_after and not redefined:
+                    stale.append((a, t.id))
+    res.ob('R17', f.where, 'duration_to_unicode: %d values computed before '
+           'the negation and used after it' % len(stale),
+           'VIOLATED' if stale else 'ok')
+    for a, nm in stale:
+        res.finding('R17', 'OutProtocolBase.duration_to_unicode|stale|%s' %
+                    nm, '%s:%d' % (f.module.relpath, a.lineno),
+                    '%s is computed from the value before it is negated '
+                    '(%s) and used afterwards: a negative timedelta stores '
+                    'negative days plus non-negative seconds and '
+                    'microseconds, so the field taken before negation is the '
+                    'complement of the one that belongs to the magnitude '
+                    '(-0.25 s is written -PT0.750000S)' % (nm, unparse(a)))
+
+
+def rule_r18(prog, res):
+    from . import c06
+    from ..report import Result
+    res.share('R18', 'published lexical patterns stay in the syntax XSD and '
+              'Python share (C06-R15)', 'C06', c06.rule_r15, prog, Result)
+
+
 def run(prog, res, tier):
     res.run_rule(rule_r1, prog, res)
     res.run_rule(rule_r2_r7, prog, res, tier)
@@ -856,6 +941,8 @@ def run(prog, res, tier):
     res.run_rule(rule_r14, prog, res)
     res.run_rule(rule_r15, prog, res)
     res.run_rule(rule_r16, prog, res)
+    res.run_rule(rule_r17, prog, res)
+    res.run_rule(rule_r18, prog, res)
 
 
 _I = 'spyne/protocol/_inbase.py'
@@ -864,6 +951,19 @@ _B = 'spyne/model/binary.py'
 _S = 'spyne/protocol/soap/soap11.py'
 
 MUTANTS = [
+    Mutant('duration-fraction-read-before-negation', 'R17', 'fire',
+           'spyne/protocol/_outbase.py',
+           in_func('OutProtocolBase.duration_to_unicode',
+                   r"(    def duration_to_unicode\(self, cls, value, \*\*_\):\n)"
+                   r"(.*?)(        useconds = value\.microseconds\n)",
+                   lambda m_: m_.group(1) + m_.group(3) + m_.group(2),
+                   regex=True), 'stale'),
+    Mutant('decimal-reader-uses-context', 'R15', 'fire',
+           'spyne/protocol/_inbase.py',
+           in_func('InProtocolBase.decimal_from_unicode',
+                   "return D(string)",
+                   "return decimal.getcontext().create_decimal(string)"),
+           'context-construction'),
     Mutant('xmldata-binary-read-without-encoding', 'R16', 'fire',
            'spyne/protocol/xml.py',
            in_func('XmlDocument.complex_from_element',
